@@ -2,6 +2,7 @@ import JaqalProofs.Lemmas.PyEq
 import JaqalProofs.Lemmas.PyEqSymm
 import JaqalProofs.Lemmas.Generator
 import JaqalProofs.Lemmas.GeneratorTotal
+import JaqalProofs.Lemmas.PyEqSound
 import JaqalModel.Spec.Sem
 /-!
 # C20 — circuit equality
@@ -16,7 +17,8 @@ can raise: only stored attributes are read).
   `…Old`: the two branches of the former definitions that made symmetry fail, kept as documentation.
 * `C20_discriminates_*` — one inversion lemma per field lens: if `==` is `True`, the two fields are equal
   (`valEq` for values); contrapositive: changing the field to a value that is not `==` gives `False`.
-* `C20_sound`           — see `Props/C20Sound.lean`.
+* `C20_sound`           — parser-like circuits (same macro definition order) that compare equal have identical
+  declarations and the same gate-level meaning `Sem.meaning ρ` for every override environment `ρ`, numbers by value.
 * generator lemmas for C01: `C20_gen_splice`, `C20_gen_names`, `C20_gen_total`.
 -/
 namespace Jaqal.C20
@@ -33,8 +35,8 @@ theorem C20_refl_needs_named_source : valEq (.qubit "q" (.int 3) (.int 0)) (.qub
 
 def gdG : GateDef := { name := "g", tag := .native, params := [("p0", .none)] }
 
-/-- `let n 2; register r[n]; map a r[0:n:1]; map q a[1]; macro m x { g x }; subcircuit n { m q ; g r[1] }` -/
-def exC : Circuit :=
+/-- `let n 2; register r[n]; map a r[0:n:1]; map q a[1]; macro m x { g x }; subcircuit n { m q ; g r[idx] }` -/
+def mkC (idx : Val) : Circuit :=
   let n := Val.const "n" (.int 2)
   let r := Val.regF "r" n
   let a := Val.regS "a" r (.int 0) n (.int 1)
@@ -44,13 +46,17 @@ def exC : Circuit :=
                  body := .block false false (.int 1) [.gate "g" gdG [("p0", .param "x" .none)]] }],
     body := .block false false (.int 1)
       [.block false true n [.gate "m" { name := "m", tag := .macro, params := [("x", .none)] } [("x", q)],
-                            .gate "g" gdG [("p0", .qubit "r[1]" r (.int 1))]]] }
+                            .gate "g" gdG [("p0", .qubit "r[1]" r idx)]]] }
 
-theorem exC_dictKeys : DictKeys exC := ⟨by decide, by decide, by decide, by decide⟩
+def exC : Circuit := mkC (.int 1)
+
+theorem mkC_dictKeys (idx : Val) : DictKeys (mkC idx) :=
+  ⟨by simp [mkC, Val.name?], by simp [mkC, Val.name?], by simp [mkC], by simp [mkC]⟩
+theorem exC_dictKeys : DictKeys exC := mkC_dictKeys _
 
 example : WF exC := by
   refine { toDictKeys := exC_dictKeys, consts := ?_, regs := ?_, macros := ?_, body := ?_ } <;>
-    simp [exC, wfVal, wfStmt, wfStmts, Val.name?, gdG]
+    simp [exC, mkC, wfVal, wfStmt, wfStmts, Val.name?, gdG]
 
 /-! ## symmetry -/
 
@@ -270,6 +276,59 @@ theorem C20_ignored_fields_meaningless (ρ md b) (n : String) (g g' : GateDef) (
         rw [List.mapM_cons, List.mapM_cons, ih cs h.2, h.1]
   simp only [Sem.evalStmt, this args args' h]
 
+/-! ## soundness with respect to the gate-level meaning -/
+
+/-- `Sem.veq` on results: both fail, or both succeed with identical trees whose numeric arguments are `==`. -/
+abbrev MeaningEq (x y : M Sem.Sem) : Prop := MRel SemRel x y
+
+/-- Two parser-like circuits (`ParserLike`: dictionaries; every qubit reference has as its source the macro
+parameter of that name or the register value bound in the circuit's own dictionary; no `None` argument) that list
+their macros in the same definition order and compare equal have
+
+* identical `let` declarations and identical register / alias declarations (name by name, numbers by value), and
+* the same gate-level meaning under every override environment `ρ` (numbers by value: `1 == 1.0`).
+
+`NamedQubit.__eq__` looks at `alias_from.name` only; the proof closes that gap with the register dictionaries
+(`registers are declared once`), which `Circuit.__eq__` does compare. -/
+theorem C20_sound (ρ : Sem.Env) (a b : Circuit) (ha : ParserLike a) (hb : ParserLike b)
+    (horder : a.macros.map (·.name) = b.macros.map (·.name)) (h : circuitEq a b = true) :
+    (a.constants.length = b.constants.length ∧
+      ∀ x ∈ a.constants, ∃ y ∈ b.constants, y.name? = x.name? ∧ valEq x y = true) ∧
+    (a.registers.length = b.registers.length ∧
+      ∀ x ∈ a.registers, ∃ y ∈ b.registers, y.name? = x.name? ∧ valEq x y = true) ∧
+    MeaningEq (Sem.meaning ρ a) (Sem.meaning ρ b) := by
+  obtain ⟨h1, _, _, h4, _, _⟩ := C20_discriminates_circuit h
+  exact ⟨dictEq_true h1, dictEq_true h4, meaning_rel ρ a b ha hb horder h⟩
+
+/-- The statement without the hypothesis on the order of the macro dictionaries. NOT proved, and false for the
+model as it stands: `Sem.denoteMacros` lets a macro call only the macros listed before it, `dict.__eq__` ignores
+the order; `[m1, m2 calls m1]` against `[m2 calls m1, m1]` compare equal and denote differently. For circuits built
+from text the order of the dictionary is the definition order and the builder refuses a macro whose name is already
+used as a gate, so two equal parser-produced circuits do list their macros in the same order; making that an
+invariant of `ParserLike` (calls go to earlier macros only) and deriving `horder` from it is what is missing. -/
+def C20_sound_full : Prop :=
+  ∀ (ρ : Sem.Env) (a b : Circuit), ParserLike a → ParserLike b → circuitEq a b = true →
+    MeaningEq (Sem.meaning ρ a) (Sem.meaning ρ b)
+
+theorem mkC_parserLike (idx : Val) : ParserLike (mkC idx) := by
+  refine { toDictKeys := mkC_dictKeys idx, bodyOk := ?_, macrosOk := ?_ }
+  · simp [mkC, StmtOk, StmtsOk, ArgOk, SrcOk, Val.name?]
+  · intro m hm
+    simp only [mkC, List.mem_singleton] at hm
+    subst hm
+    simp [StmtOk, StmtsOk, ArgOk]
+
+example : ParserLike exC := mkC_parserLike _
+
+/-- `exC` with the index of `r[1]` written as the float `1.0`: equal (`1 == 1.0`), same meaning -/
+def exC' : Circuit := mkC (.flt ⟨false, 1, 0⟩)
+
+example : ParserLike exC' ∧ circuitEq exC exC' = true ∧ exC.macros.map (·.name) = exC'.macros.map (·.name) ∧
+    exC.body ≠ exC'.body := by
+  refine ⟨mkC_parserLike _, ?_, rfl, by simp [exC, exC', mkC]⟩
+  simp [circuitEq, dictEq, exC, exC', mkC, valEq, Val.name?, Num.veq, stmtEq, stmtsEq, argsEq, macroEq, paramsEq, listEqB,
+    Dec.isIntegral, Dec.toInt]
+
 /-! ## generator lemmas for C01 -/
 
 /-- splicing same-kind non-subcircuit nested blocks does not change the generated text of a block -/
@@ -293,11 +352,11 @@ theorem C20_gen_total (c : Circuit) (h : Generator.Printable c) : ∃ s, Generat
   Generator.gen_total c h
 
 example : Generator.Printable exC := by
-  refine ⟨by simp [exC], ?_, ?_, ?_, ⟨_, _, _, _, rfl, ?_⟩⟩
-  · simp [exC, Generator.printableLet, Generator.printableVal, Generator.genValue]
-  · simp [exC, Generator.printableReg, Generator.printableVal, Generator.genValue, Val.name?, Generator.plainBound]
+  refine ⟨by simp [exC, mkC], ?_, ?_, ?_, ⟨_, _, _, _, rfl, ?_⟩⟩
+  · simp [exC, mkC, Generator.printableLet, Generator.printableVal, Generator.genValue]
+  · simp [exC, mkC, Generator.printableReg, Generator.printableVal, Generator.genValue, Val.name?, Generator.plainBound]
   · intro m hm
-    simp only [exC, List.mem_singleton] at hm
+    simp only [exC, mkC, List.mem_singleton] at hm
     subst hm
     exact ⟨_, _, _, _, rfl, by
       simp [Generator.printable, Generator.printableL, Generator.fmtOk, Generator.printableVal, Generator.genValue]⟩
@@ -337,6 +396,7 @@ end Jaqal.C20
 #print axioms Jaqal.C20.C20_discriminates_regS
 #print axioms Jaqal.C20.C20_discriminates_number
 #print axioms Jaqal.C20.C20_ignored_fields_meaningless
+#print axioms Jaqal.C20.C20_sound
 #print axioms Jaqal.C20.C20_gen_splice
 #print axioms Jaqal.C20.C20_gen_names
 #print axioms Jaqal.C20.C20_gen_total
